@@ -26,20 +26,27 @@ def si_oracle():
     return t
 
 
-def fold(e, py):
+def fold(e, py, mod="units"):
     """exact value of a constant expression built from literals and constants.avogadro_number()"""
     if isinstance(e, ast.Constant) and isinstance(e.value, (int, float)):
         return Fraction(repr(e.value)) if isinstance(e.value, float) else Fraction(e.value)
     if isinstance(e, ast.BinOp) and isinstance(e.op, (ast.Mult, ast.Div)):
-        a, b = fold(e.left, py), fold(e.right, py)
+        a, b = fold(e.left, py, mod), fold(e.right, py, mod)
         return a * b if isinstance(e.op, ast.Mult) else a / b
     if isinstance(e, ast.UnaryOp) and isinstance(e.op, ast.USub):
-        return -fold(e.operand, py)
+        return -fold(e.operand, py, mod)
     if isinstance(e, ast.Call) and pyfe.call_name(e) == "constants.avogadro_number":
         f = py.fn("constants.avogadro_number")
         rets = [r for r in ast.walk(f) if isinstance(r, ast.Return)]
         if len(rets) == 1:
-            return fold(rets[0].value, py)
+            return fold(rets[0].value, py, "constants")
+    if isinstance(e, ast.Name) and mod is not None:
+        # a module-level constant assigned once
+        m = py.mods.get(mod)
+        defs = [st.value for st in (m.tree.body if m else []) if isinstance(st, ast.Assign) and len(st.targets) == 1 and
+                isinstance(st.targets[0], ast.Name) and st.targets[0].id == e.id]
+        if len(defs) == 1:
+            return fold(defs[0], py, mod)
     raise AnalysisError("constant expression not foldable: " + pyfe.src(e))
 
 
